@@ -55,6 +55,8 @@ def case_s():
     adv = st.fixed_dictionaries({"op": st.just("adv"), "ms": st.sampled_from([0, 1, 30, 50, 99, 100, 101, 150])})
     return st.fixed_dictionaries({
         "cbf": st.booleans(), "dpl": st.sampled_from([1, 2, 8]), "inside": st.booleans(), "neighbour": st.booleans(),
+        # where the clock starts: far from, or a few hundred ms before, the 2^32 ms wrap of the position-vector timestamps
+        "before_wrap_ms": st.sampled_from([None, None, None, 40, 150, 400, 1000]),
         "events": st.lists(st.one_of(rx_s(), rx_s(), rx_s(), adv), min_size=1, max_size=60),
     })
 
@@ -103,10 +105,14 @@ def run_case(case):
     from ..vclock import VClock, tst32
 
     labels = set()
-    clock = VClock(1_700_000_000.0)
+    from ..vclock import utc_before_wrap
+    bw = case.get("before_wrap_ms")
+    clock = VClock(1_700_000_000.0 if bw is None else utc_before_wrap(bw))
     clock.install([gr, ltm])
     vs = []
     try:
+        if bw is not None:
+            labels.add("clock-near-tst-wrap")
         st_ = Station(None, OWN, mib_kwargs=dict(
             itsGnDPLLength=case["dpl"], itsGnMaxPacketDataRate=10**9, itsGnMaxGeoAreaSize=10**6,
             itsGnAreaForwardingAlgorithm=AreaForwardingAlgorithm.CBF if case["cbf"] else AreaForwardingAlgorithm.SIMPLE))
